@@ -141,6 +141,7 @@ typedef struct {
 	KSI_AggregationHashChain *local[NCAN];     /* local aggregation chain objects the caller holds (one per canonical ancestor) */
 	int local_tried[NCAN];                     /* number of failed prepends the held object went through */
 	int last_prepend_retry;
+	int pki_attached;
 	long log_msgs;
 } world_t;
 
@@ -150,9 +151,16 @@ static int discard_log(void *logCtx, int level, const char *message) {
 	return KSI_OK;
 }
 
+/* like fx_ctx(1, 0), but the PKI trust store (reading the CA file costs more than everything else in a short history) is attached
+ * when the first publications file is handed to the context */
 static void world_open(world_t *w) {
+	static KSI_CertConstraint c[2];
 	memset(w, 0, sizeof *w);
-	w->ctx = fx_ctx(1, 0);
+	w->ctx = ku_ctx();
+	memset(c, 0, sizeof c);
+	c[0].oid = KSI_CERT_EMAIL; c[0].val = FX_EMAIL;
+	if (KSI_CTX_setDefaultPubFileCertConstraints(w->ctx, c) != KSI_OK) vf_harness_error("cert constraints");
+	if (KSI_CTX_setExtender(w->ctx, "ksi+tcp://ext.fx.test:3331", FX_LOGIN, FX_KEY) != KSI_OK) vf_harness_error("setExtender");
 	if (KSI_CTX_setLoggerCallback(w->ctx, discard_log, w) != KSI_OK) vf_harness_error("setLoggerCallback");
 	if (KSI_CTX_setLogLevel(w->ctx, KSI_LOG_NONE) != KSI_OK) vf_harness_error("setLogLevel");
 	if (getenv("C11_DEBUG") && atoi(getenv("C11_DEBUG")) > 1) { KSI_CTX_setLoggerCallback(w->ctx, KSI_LOG_StreamLogger, stderr); KSI_CTX_setLogLevel(w->ctx, KSI_LOG_DEBUG); }
@@ -197,6 +205,12 @@ static anchor_t *anchor_for(world_t *w, const sdesc *d, int need_file, int need_
 		a = &w->a[w->na++];
 		memset(a, 0, sizeof *a);
 		a->key = key;
+	}
+	if (need_file && !w->pki_attached) {
+		KSI_PKITruststore *pki = NULL;
+		if (KSI_PKITruststore_new(w->ctx, 0, &pki) != KSI_OK || KSI_PKITruststore_addLookupFile(pki, rk_ca_file(0)) != KSI_OK
+			|| KSI_CTX_setPKITruststore(w->ctx, pki) != KSI_OK) vf_harness_error("truststore");
+		w->pki_attached = 1;
 	}
 	if (need_file && a->upf == NULL) {
 		const vbuf *pf = pubfile_bytes(d);
@@ -696,7 +710,7 @@ static void run_history(int s0, const int *seq, int n) {
 	vf_count("states", 1);
 	vf_count("transitions", H.transitions);
 	vf_count("reference_results_tabulated", ref_computed - ref0);
-	if (sampled < 3 && n >= 2) {
+	if (sampled < 2 && n >= 2 && OPS[seq[0]].kind != OPS[seq[1]].kind && OPS[seq[0]].kind > K_LOG && OPS[seq[n - 1]].kind > K_LOG) {
 		char b[560];
 		describe(b, sizeof b, s0, seq, n);
 		vf_sample("%s", b);
